@@ -14,8 +14,8 @@ CHECK = {
     "packages": ["./actor", "./internal/commands"],
     "harness": ["actor/zz_verif_rd.go", "actor/zz_verif_c44.go", "internal/commands/zz_verif_rd.go"],
     "entries": [
-        {"fn": P + "vC44_step", "replay": "model-only", "cases_quick": {"kind": [0, 1, 2, 3, 4, 5, 6, 7, 8], "seqBits": [16], "jobs": [2]},
-         "cases_thorough": {"kind": [0, 1, 2, 3, 4, 5, 6, 7, 8], "seqBits": [16, 61], "jobs": [3]},
+        {"fn": P + "vC44_step", "replay": "model-only", "cases_quick": {"kind": [0, 1, 2, 3, 4, 5, 6, 7, 8, 9, 10], "seqBits": [16], "jobs": [2]},
+         "cases_thorough": {"kind": [0, 1, 2, 3, 4, 5, 6, 7, 8, 9, 10], "seqBits": [16, 61], "jobs": [3]},
          "opts_quick": {"loop_bounds": {W + "dispatchPending": 3, W + "nextEligibleBinding": 3}},
          "may_be_unreachable": ("a job is handed only to a binding with free demand (the worker sequence never passes demandUpTo)",
                                 "a new binding starts a fresh sequence space and receives work only under demand",
